@@ -112,6 +112,18 @@ def observe(name):
         finally:
             if first:
                 rec["in_react"] = False
+    orig_anh = reactor.SMILESReaktor.check_for_anhydro
+
+    def anhydro(self, names, types):
+        # the residue as `ring_c` has to see it: before any anhydro bridge is closed
+        if rec.get("in_react") and "pre_anhydro" not in rec:
+            try:
+                x = self.monomer.x
+                rec["pre_anhydro"] = {"atoms": [[int(x[i, 0]), int(x[i, 2]), int(x[i, 3])] for i in range(x.shape[0])], "x": [int(v) for v in x[:, 1]]}
+            except Exception:
+                pass
+        return orig_anh(self, names, types)
+    reactor.SMILESReaktor.check_for_anhydro = anhydro
     reactor.SMILESReaktor.assemble_chains = assemble
     reactor.SMILESReaktor.react = react
     try:
@@ -119,6 +131,7 @@ def observe(name):
     finally:
         reactor.SMILESReaktor.assemble_chains = orig_assemble
         reactor.SMILESReaktor.react = orig_react
+        reactor.SMILESReaktor.check_for_anhydro = orig_anh
     rec["result"] = (kind, smi)
     return rec
 
@@ -190,6 +203,26 @@ def run(rep, tier, driver, names):
                     nm, a.get("full"), o["full"], [[c for c in r if c != ["", ""]] for r in a["rounds"]],
                     [[c for c in r["chains"] if c != ["", ""]] for r in o["rounds"]]))
     rep.extra["reactor_loop_model"] = lst
+    # the anchor of position-less groups: Model of ring_c on the features before check_for_anhydro against self.ring_c
+    creqs, ckeep = [], []
+    for nm, o in zip(names, obs):
+        if "pre_anhydro" in o and o.get("rounds"):
+            creqs.append(dict(op="ringc", **o["pre_anhydro"]))
+            ckeep.append((nm, o))
+    cans = driver.ask_many(creqs)
+    cst = {"compared": 0, "agree": 0, "anchor_values": {}}
+    cbad = 0
+    for (nm, o), a in zip(ckeep, cans):
+        cst["compared"] += 1
+        want = o["rounds"][0]["view"]["ringC"]
+        cst["anchor_values"][str(want)] = cst["anchor_values"].get(str(want), 0) + 1
+        if a.get("ring_c") == want:
+            cst["agree"] += 1
+        else:
+            cbad += 1
+            if cbad <= 3:
+                rep.broken.append("ring_c model %r vs self.ring_c %r on %r (features before check_for_anhydro)" % (a.get("ring_c"), want, nm))
+    rep.extra["ring_c_model"] = cst
     # the string half of assemble_chains: Model text against the code's new residue SMILES, and the graft certificate
     areqs, akeep = [], []
     for nm, o in zip(names, obs):
